@@ -114,7 +114,7 @@ PROPS["C10"] = {
 PROPS["C19"] = {
     "lean": ["SioVerif.Props.C19"],
     "components": ["timed:TestQueues"],
-    "facts": ["chanPollQueueReady", "chanPacketQueueReady"],
+    "facts": ["chanPollQueueReady", "chanPacketQueueReady", "chanPacketQueueDrain"],
     "rule": "forced schedules on the real pollQueue and packetQueue inside a synctest bubble: goroutines parked at the yield points (before get, between get and "
             "the select, before the final get, between append and signal) are released one atomic step at a time by a random walk (1..2 consumers, any number of "
             "producers, bursts of 1..2 packets, poll timeouts at virtual +45 s), quiescence observed with synctest.Wait; the label sequence actually taken is "
@@ -163,7 +163,7 @@ PROPS["C16"] = {
 PROPS["C17"] = {
     "lean": ["SioVerif.Props.C17"],
     "components": ["eioserver"],
-    "facts": ["eioProtocolVersion", "eioServerErrors", "eioNewSocketRechecksClosed"],
+    "facts": ["eioProtocolVersion", "eioServerErrors", "eioNewSocketRechecksClosed", "eioCloseSetsFlagFirst"],
     "rule": "the full request matrix method{GET,POST,PUT,DELETE,OPTIONS} x EIO{absent,3,4,5,junk} x transport{absent,polling,websocket,junk} x sid{absent,unknown,live,"
             "closed} x {b64,j} flags against a freshly prepared real eio.Server (open and closed), observing status, JSON error code, sessions created, packets delivered to "
             "and liveness of a pre-existing session; Server.Close invoked from the Authenticator (between the closed check and store.set) and racing 2..15 concurrent "
